@@ -3,6 +3,7 @@
 From Coq Require Import List ZArith NArith Bool Floats.SpecFloat.
 From AG Require Cli.
 From AG Require Import Str F64 Value Json Expr Ops Pipeline Filter Output Display Term Grammar.
+From AG Require Print.
 Import ListNotations.
 Open Scope string_scope.
 Open Scope list_scope.
@@ -449,6 +450,27 @@ Definition run_case (c : sexp) : sexp :=
             | None => sym "reject"
             end
         | _, _ => sym "bad-case"
+        end
+      else sym "bad-case"
+  | SList [h; w0; w1; SList [b1; b2; b3; b4]; ww; SList stages] =>
+      if is_sym h "pp" then
+        (* (pp ws0 ws1 (words neq dq full) filter (stages)): the query text the printer of the round-trip
+           theorems writes for this AST, and whether the AST is within the theorems' hypotheses *)
+        match atom_str w0, atom_str w1, dec_filter ww, map_opt dec_stage stages with
+        | Some w0, Some w1, Some f, Some stages =>
+            let o := Print.mkPO w0 w1 (is_sym b1 "true") (is_sym b2 "true") (is_sym b3 "true") (is_sym b4 "true") in
+            let fs := match f with FAnd l => l | _ => [f] end in
+            (* the header of a key column IS the source text of its expression *)
+            let stages := map (fun st => match st with
+                                         | SAgg fns keys => SAgg fns (map (fun ke => (Print.pp o 0 (snd ke), snd ke)) keys)
+                                         | _ => st end) stages in
+            let wf := Print.popts_ok o && forallb Print.wf_filter fs
+                      && forallb (Print.wf_stage o) stages && forallb stage_ok stages in
+            match Print.pp_query o fs stages with
+            | Some t => SList [sym "text"; sym (if wf then "wf" else "notwf"); sstr t]
+            | None => sym "unprintable"
+            end
+        | _, _, _, _ => sym "bad-case"
         end
       else sym "bad-case"
   | SList [h; hh; ww; bytes] =>
